@@ -212,6 +212,12 @@ def step (s : DState) (line : String) : DState × String :=
   | "rl" :: rest => rlStep s rest
   | "cb" :: rest => cbStep s rest
   | "lb" :: rest => lbStep s rest
+  | ["hash", "jump", k, n] =>
+    match k.toNat?, n.toNat? with
+    | some k, some n =>
+      if n ≥ 1 ∧ k < 18446744073709551616 then (s, toString (Hash.jumpHash (UInt64.ofNat k) n)) else (s, "bad-op")
+    | _, _ => (s, "bad-op")
+  | ["hash", "fnv", tok] => (s, toString (Hash.fnv1a (unesc tok)).toNat)
   | _ => (s, "bad-op")
 
 partial def loop (h : IO.FS.Stream) (out : IO.FS.Stream) (s : DState) : IO Unit := do
